@@ -7,10 +7,10 @@ ALL = ["C%02d" % i for i in range(1, 21)]
 # id -> (level, technique, level text, level note, design ref)
 TRUST = "Trusts the Go standard library crypto, circl (VOPRF / blind RSA engine used by both sides), go-hpke and the harness's reference code (validated against the repository's and the Rust implementation's vectors); sampling, not proof."
 CHECKS = {
- "C01": ("exploration", "deterministic simulation of the whole issuance deployment over a simulated byte network; seeded benign-fault schedules (delay, reorder, duplicate, drop+retransmit, segmentation); independent token oracle",
+ "C01": ("exploration", "deterministic simulation of the whole issuance deployment over a simulated byte network; seeded benign-fault schedules (delay, reorder, duplicate, drop+retransmit, segmentation, buffer-pool reuse, decoder-object reuse, late origin registration); second engine: concurrent honest sessions on one issuer under a seeded one-at-a-time scheduler; independent token oracle",
          "Seeded search over honest deployment runs (all four token types, interleaved sessions, key and size configuration); every session must end in tokens that match an independently built encoding and verify (issuer Verify / crypto/rsa).",
          TRUST + " RSA keys from a fixture pool of 8.", "DESIGN.md §4 C01"),
- "C02": ("fault_enumeration", "deterministic simulation with a byzantine issuer on the response hop: every single-bit flip enumerated, swap, foreign key, type-5 omission/duplication/transposition",
+ "C02": ("fault_enumeration", "deterministic simulation with a byzantine issuer on the response hop: every single-bit flip enumerated, swap, foreign key, type-5 omission/duplication/transposition; second engine: concurrent finalization of honest and hostile responses on one request state under a seeded scheduler",
          "Every bit position of honest responses of each type is flipped and delivered to a client with an outstanding request; plus swaps between sessions, foreign-key responses and batch structure faults. Finalize may succeed only with a token that verifies and is bound to the request.",
          TRUST, "DESIGN.md §4 C02"),
  "C03": ("fault_enumeration", "deterministic simulation with a garbage-sending peer, isolated worker processes, allocation meter and watchdog: every truncation, every length field x boundary set, extension, splice, noise on 29 byte-consuming targets",
@@ -22,7 +22,7 @@ CHECKS = {
  "C05": ("exploration", "deterministic simulation of generic batch issuance with per-slot failure injection over all short compositions and issuer configurations; per-request standalone evaluation as reference model",
          "All compositions of length <= 3 (quick) / <= 4 (thorough) over {type1,type2} x {known key, unknown key id, malformed element} under four issuer configurations, sampled longer ones; each entry must agree with the per-slot model and finalize to a valid token.",
          TRUST, "DESIGN.md §4 C05"),
- "C06": ("fault_enumeration", "deterministic simulation with a byzantine client on the client->attester hop: every single-bit flip of a request, wrong blinds / client keys, swapped side information, re-signed requests; stdlib ECDSA + independent key-blinding reference; recording cache",
+ "C06": ("fault_enumeration", "deterministic simulation with a byzantine client on the client->attester hop: every single-bit flip of a request, wrong blinds / client keys, swapped side information, re-signed requests, request objects altered after encoding; second engine: genuine and tampered requests verified concurrently on one attester; stdlib ECDSA + independent key-blinding reference; recording cache",
          "accept <=> (crypto/ecdsa verifies the signature over the exact contents under the request key) and (request key = reference-blind(client key, blind)); rejected requests must not touch the cache.",
          TRUST, "DESIGN.md §4 C06"),
  "C07": ("fault_enumeration", "deterministic simulation with a byzantine client on the hop into the rate-limited issuer: every single-bit flip, misrouting, 16 hostile request classes built with crypto/ecdsa + go-hpke; independent parse/HPKE-open/origin/ECDSA checker",
@@ -91,6 +91,7 @@ def main():
         "hooks": {"guard": "verif", "enable": "go build -tags verif (all engines are built with the tag; no hook source exists in /repo so far)",
                   "baseline_off_cmd": "/verif/baseline.sh", "source_commits": [], "add_only": True},
         "engines": [
+            {"name": "conc-parts", "path": "/verif/internal/props", "serves_properties": ["C01", "C02", "C06"], "kind_free_text": "scenarios C01c, C02c, C06c on the conc engine, run by ./check C01|C02|C06 after the net engine; violations reported under the property"},
             {"name": "net", "path": "/verif/internal/world", "serves_properties": [p for p in CHECKS if p not in ("C12","C13","C14","C15","C17")], "kind_free_text": "deployment simulator: clients, attester, issuers, batch issuer, origin, directory over a quicwire-framed simulated byte network, simulated entropy, arena"},
             {"name": "sig", "path": "/verif/internal/props", "serves_properties": [p for p in CHECKS if p in ("C12","C13","C14","C15")], "kind_free_text": "signer/blinder/verifier pipeline with entropy faults and stdlib reference model"},
             {"name": "conc", "path": "/verif/internal/conc", "serves_properties": [p for p in CHECKS if p == "C17"], "kind_free_text": "seeded one-at-a-time task scheduler under the race detector on a yield-instrumented scratch copy"},
